@@ -175,6 +175,11 @@ Example C02_dispatch_ex_no_index :
   messages_dispatch ds_id x2_file [OMetadataCb; OUsingIndex false]
     = Ok (MScan, finalize (default_ropts <| ro_md_cb := true |> <| ro_use_index := false |>)).
 Proof. exact x2_dispatch_no_index. Qed.
+Example C02_dispatch_ex_empty_file :
+  info ds_id x4_file = Ok x4_sm /\ sm_channels x4_sm = [] /\
+  messages_dispatch ds_id x4_file [] = Ok (MIndexed, x2_ro) /\
+  (exists st, sm_stats x4_sm = Some st /\ st_messages st = 0).
+Proof. exact x4_dispatch_empty. Qed.
 Example C02_dispatch_ex_bad_options :
   apply_opts [OUsingIndex false; OInOrder LogTimeOrder] default_ropts = Err EOther /\
   messages_dispatch ds_id x2_file [OUsingIndex false; OInOrder LogTimeOrder] = Err EOther.
@@ -269,6 +274,13 @@ Theorem C02_scan_metadata : forall ro, ro_md_cb ro = true ->
 Proof. exact C02_scan_metadata_thm. Qed.
 Print Assumptions C02_scan_metadata.
 
+Example C02_token_stream_ex :
+  lo_cb scan_lopts = CbNone /\ Forall (wf_item scan_lopts ds_id) x2_recs /\
+  at_top x2_s0 (rd (render (x2_recs ++ [IMagic])) None true) /\
+  delivers scan_lopts ds_id (file_steps scan_lopts ds_id x2_recs + 1)
+    (u_lex {| u_lex := x2_s0; u_schemas := []; u_channels := []; u_reccap := 0 |})
+    (file_events scan_lopts ds_id x2_recs) EEOF.
+Proof. exact x2_token_stream_hyps. Qed.
 Example C02_scan_ex :
   blen x2_hb < max_int32 /\ Forall (wf_item scan_lopts ds_id) x2_recs /\
   (exists h l, new_reader ds_id (mem_file (render (data_file x2_hb x2_recs))) true = Ok (h, l)) /\
